@@ -72,12 +72,12 @@ class H:
         self.children = children
 
 
-@lemma('X1.toc-heading', 'C18', quick=ks(1), thorough=ks(1) + by('level', [1, 2, 3, 4, 5, 6], [{'k': 2, 'timeout': 3000}]), timeout=300,
+@lemma('X1.toc-heading', 'C18', quick=[{'k': 0}] + by('level', [1, 2, 3, 4, 5, 6], [{'k': 1}]), thorough=[{'k': 0}] + by('level', [1, 2, 3, 4, 5, 6], [{'k': 1}, {'k': 2, 'timeout': 3000}]), timeout=300,
        covers=['contrib/toc_renderer.py:TocRenderer.render_heading', 'html_renderer.py:HtmlRenderer.render_heading'],
        note='TocRenderer.render_heading returns exactly what HtmlRenderer.render_heading returns; level in 1..6 solver-enumerated, inner text symbolic over Σ, options symbolic and forwarded')
 def x1_toc_heading(level: int, c1: int, c2: int, dq: bool, sq: bool, depth: int, omit: bool) -> bool:
     """
-    pre: 1 <= level <= 6 and all_ok(cp_ok, P('k'), c1, c2) and fixed(level, 'level')
+    pre: fixed(level, 'level') and 1 <= level <= 6 and all_ok(cp_ok, P('k'), c1, c2)
     post: _
     """
     from mistletoe.contrib.toc_renderer import TocRenderer
@@ -183,7 +183,7 @@ def x3_renderers():
     return [(n, c[n]) for n in ('TocRenderer', 'GithubWikiRenderer', 'MathJaxRenderer', 'PygmentsRenderer') if n in c]
 
 
-@lemma('X3.pipeline', 'C18', quick=[{'k': 1, 'sigma': True}] + by('c1', list('$[\'#'), [{'k': 2, 'sigma': False, 'dq': False, 'html': True}]),
+@lemma('X3.pipeline', 'C18', quick=[{'k': 1, 'sigma': True, 'dq': False, 'html': True}, {'k': 1, 'sigma': True, 'dq': True, 'html': False}] + by('c1', list('$[\''), [{'k': 2, 'sigma': False, 'dq': False, 'html': True}]),
        thorough=[{'k': 1, 'sigma': True}] + by('c1', list(X3_ALPH), [{'k': 2, 'sigma': False}, {'k': 3, 'sigma': False, 'timeout': 3000}]),
        timeout=600, per_path=120, stubs=['urllib.parse.quote -> contract stub'],
        covers=['contrib/toc_renderer.py:TocRenderer.render_heading', 'contrib/mathjax.py:MathJaxRenderer.render_document',
@@ -191,7 +191,7 @@ def x3_renderers():
        note='Toc, GithubWiki and MathJax output == HtmlRenderer output (+ script line) on every document meeting the per-renderer side condition; options symbolic')
 def x3_pipeline(c1: int, c2: int, c3: int, dq: bool, sq: bool, html: bool) -> bool:
     """
-    pre: (all_ok(cp_md, P('k'), c1, c2, c3) if P('sigma') else all_in(X3_ALPH, P('k'), c1, c2, c3)) and fixed(c1, 'c1')
+    pre: fixed(c1, 'c1') and (all_ok(cp_md, P('k'), c1, c2, c3) if P('sigma') else all_in(X3_ALPH, P('k'), c1, c2, c3))
     pre: fixed(dq, 'dq') and fixed(html, 'html')
     post: _
     """
